@@ -2,6 +2,8 @@ package main
 
 import (
 	"fmt"
+	"go/ast"
+	"go/constant"
 	"go/token"
 	"go/types"
 	"strings"
@@ -102,6 +104,36 @@ func checkC16(c *Ctx) {
 	c.guard(p, "C16.verifyguard", "VerifyFinalize true only if evaluation succeeded", vf, GuardSpec{Assumes: []Assume{calleeAssume(latNonNil, 1, "(oprf.server).fullEvaluate")}})
 	for _, t := range []string{"Server", "VerifiableServer", "PartialObliviousServer"} {
 		c.guard(p, "C16.verifyguard", "public VerifyFinalize delegates to the comparison", p.Func("oprf", t, "VerifyFinalize"), GuardSpec{Assumes: []Assume{calleeAssume(latFalse, -1, "(oprf.server).verifyFinalize")}})
+	}
+	// RFC 9497 section 4: the ciphersuite identifiers (they enter every domain separation tag), their groups
+	// and hashes
+	for _, su := range []struct{ name, id, group, hash string }{
+		{"SuiteRistretto255", "ristretto255-SHA512", "group.Ristretto255", "crypto.SHA512"},
+		{"SuiteP256", "P256-SHA256", "group.P256", "crypto.SHA256"},
+		{"SuiteP384", "P384-SHA384", "group.P384", "crypto.SHA384"},
+		{"SuiteP521", "P521-SHA512", "group.P521", "crypto.SHA512"},
+	} {
+		e, info := p.varInit("oprf", su.name)
+		what := "oprf." + su.name + " = (" + su.id + ", " + su.group + ", " + su.hash + ")"
+		cl, ok := e.(*ast.CompositeLit)
+		if e == nil || !ok {
+			c.undecided("C16.table", what, "the suite is not initialised by a composite literal", "")
+			continue
+		}
+		got := map[string]string{}
+		for _, el := range cl.Elts {
+			kv, ok := el.(*ast.KeyValueExpr)
+			if !ok {
+				continue
+			}
+			k := types.ExprString(kv.Key)
+			if tv, ok := info.Types[kv.Value]; ok && tv.Value != nil && tv.Value.Kind() == constant.String {
+				got[k] = constant.StringVal(tv.Value)
+			} else {
+				got[k] = types.ExprString(kv.Value)
+			}
+		}
+		c.tableEq("C16.table", what, got["identifier"]+", "+got["group"]+", "+got["hash"], su.id+", "+su.group+", "+su.hash, "")
 	}
 	// proof verifiers
 	vbf := p.Func("zk/dleq", "Verifier", "VerifyBatch")
